@@ -143,6 +143,68 @@ PROPS = {
                         "an accidental duplicate-assertion error (known finding F32)"],
         "n": {"quick": 150, "thorough": 3000},
     },
+    "C11": {
+        "theorems": ["C11_reports_model", "C11_duration", "C11_horizon", "C11_calendar", "C11_assigned_has_requirement",
+                     "C11_unscheduled_no_assignment"],
+        "profiles": [("core", 1.0)],
+        "relevant": lambda o: False,
+        "spec": None,
+        "sol_profiles": ["core", "all", "ind", "buffer"],
+        "n_sol": {"quick": 300, "thorough": 5000},
+        "z3_fraction": 0.3,
+        "nontrivial": lambda s: True,
+        "rule": "SOL: build_solution of the real library vs the model on the same interpretation, for scripts of the "
+                "core / all / ind / buffer profiles x calendar settings {none, delta, delta+start_time}: 70 % synthetic "
+                "interpretations (every variable drawn from {-3..3,5,8,H}: unscheduled tasks, negative busy starts, ties, "
+                "duplicate buffer instants) fed through a model stub, 30 % real z3 models; every field of every task / "
+                "resource / buffer / indicator entry is compared; non-trivial = solution with at least one line; "
+                "distinct = distinct (script, seed)",
+        "assumptions": ["FlagsAgree (no task requires one worker through two routes) and delay-in below the task number for "
+                        "the 'unscheduled => no assignment' theorem (finding F19)",
+                        "the 'task lists r iff r lists the task' equivalence is decided by SOL + the two one-directional lemmas, "
+                        "not yet by a single theorem"],
+        "n": {"quick": 20, "thorough": 100},
+    },
+    "C16": {
+        "theorems": ["C16_df_faithful", "C16_df_injective", "C16_excel_item_decode", "C16_excel_zero_length",
+                     "C16_excel_cells_complete"],
+        "profiles": [("core", 1.0)],
+        "relevant": lambda o: False,
+        "spec": None,
+        "out_profiles": ["all", "core", "obj", "buffer", "ind"],
+        "out_what": ("df", "excel", "json", "smt"),
+        "n_out": {"quick": 120, "thorough": 2500},
+        "nontrivial": lambda s: True,
+        "rule": "OUT: generated problems (all element kinds, optional and zero-duration tasks, buffers, indicators, "
+                "calendar times, both optimisers) are solved with real z3; to_df / to_csv (string and ';'-separated file) / "
+                "to_json / to_excel_file (colors on and off) / export_to_smt2 are run and read back (csv, json, zipfile + "
+                "xml.etree, z3.parse_smt2_string) and compared cell by cell with the model's dfRows / excelCells and with "
+                "the solution object / the solver's assertions; distinct = distinct (script, seed)",
+        "assumptions": ["pandas, xlsxwriter, pydantic's JSON dump and z3's SMT-LIB printer are not modelled: their output is "
+                        "read back and compared",
+                        "Excel: a zero-length item is written like a length-1 item and an item starting at -1 erases the name "
+                        "cell of its row (known finding F21)"],
+        "n": {"quick": 10, "thorough": 50},
+    },
+    "C17": {
+        "theorems": ["mkBar_span", "C17_marker_centred", "C17_task_bars", "C17_task_bar_at", "C17_resource_bars",
+                     "C17_resource_bar_count", "C17_buffer_steps"],
+        "profiles": [("core", 1.0)],
+        "relevant": lambda o: False,
+        "spec": None,
+        "out_profiles": ["all", "core", "buffer", "ind"],
+        "out_what": ("gantt",),
+        "n_out": {"quick": 100, "thorough": 2000},
+        "nontrivial": lambda s: True,
+        "rule": "OUT: generated problems solved with real z3, rendered with render_gantt_matplotlib on the Agg backend in "
+                "both modes; bar rectangles (PolyCollection vertices), their labels and label positions, row tick labels "
+                "and buffer step lines are read from the artists and compared with the model's ganttBars / ganttRowLabels / "
+                "bufferSteps (exact coordinates in units of 1/20); distinct = distinct (script, seed)",
+        "assumptions": ["matplotlib's rendering of the artists is not modelled",
+                        "the plotly renderer is not covered (plotly is not usable offline in this sandbox: its 4 tests fail on "
+                        "the unchanged tree)"],
+        "n": {"quick": 10, "thorough": 50},
+    },
     "C07": {
         "theorems": ["incLoop_spec", "C07_anytime", "C07_optimal"],
         "profiles": [("obj", 1.0)],
@@ -380,6 +442,9 @@ def run_chunk(args):
             if it[0] in ("sm", "run"):
                 run_solver_item(prop, tier, it, d, summary)
                 continue
+            if it[0] in ("sol", "out"):
+                run_output_item(prop, tier, it, d, summary)
+                continue
             if it[0] == "seed":
                 _, sd, profile, size = it
                 script, kinds = gen.gen_script(sd, profile, size=size, thorough=(tier == "thorough"))
@@ -480,6 +545,45 @@ def pre_build(prop, rep):
         rep.oblige(r.returncode == 0, "TABLE translator (pydantic field metadata -> PS/Generated/FieldTable.lean)")
 
 
+def run_output_item(prop, tier, it, d, summary):
+    """SOL (build_solution) and OUT (exports, gantt) cases"""
+    from harness import gen, pslib
+    spec = PROPS[prop]
+    kind, sd, profile, size = it[:4]
+    rng = random.Random(sd)
+    script, kinds = gen.gen_script(sd, profile, size=size, thorough=(tier == "thorough"))
+    script = [x for x in script if x["op"] != "solver"]
+    label = f"{kind} seed={sd} profile={profile}"
+    summary["n"] += 1
+    for k, v in kinds.items():
+        summary["dist"][k] = summary["dist"].get(k, 0) + v
+    use_z3 = rng.random() < spec.get("z3_fraction", 0.3)
+    if kind == "out" or use_z3:
+        # solved cases use problems whose declarations were all accepted
+        probe = pslib.Real()
+        if any(r != "ok" for r in probe.run(script)):
+            script = [x for x, r in zip(script, probe.results) if r == "ok"]
+            if any(r != "ok" for r in pslib.Real().run(script)):
+                return
+    if kind == "sol":
+        from harness import sol
+        diffs, n = sol.run_case(d, script, rng, use_z3=use_z3)
+    else:
+        from harness import outch
+        diffs, n = outch.run_case(d, script, rng, use_z3=use_z3, what=spec["out_what"])
+    summary["dist"][kind + "_lines_compared"] = summary["dist"].get(kind + "_lines_compared", 0) + n
+    summary["dist"][kind + ("_z3_model" if use_z3 else "_synthetic_model")] = \
+        summary["dist"].get(kind + ("_z3_model" if use_z3 else "_synthetic_model"), 0) + 1
+    if n:
+        summary["nontrivial"].append(script_key([script, sd]))
+    if len(summary["samples"]) < 2 and n:
+        summary["samples"].append({"label": label, "script": [pslib.to_line(x) for x in script][:10]})
+    if diffs:
+        # the differing solution / output is itself the failing input
+        summary["violations"].append({"label": label, "script": script, "kind": kind.upper(), "seed": sd,
+                                      "what": "; ".join(diffs[:3])})
+
+
 def corpus_items(prop):
     items = []
     for pat in (os.path.join(VERIF, "corpus", "common", "*.json"), os.path.join(VERIF, "corpus", prop, "*.json")):
@@ -509,11 +613,11 @@ def seeds_for(prop, seed, n, profiles, tier):
 def solver_items(prop, seed, tier, spec):
     rng = random.Random(f"{prop}-{seed}-{tier}-solver")
     items = []
-    for kind in ("sm", "run"):
+    for kind in ("sm", "run", "sol", "out"):
         n = spec.get("n_" + kind, {}).get(tier, 0)
         for _ in range(n):
             prof = rng.choice(spec.get(kind + "_profiles", ["obj"]))
-            items.append((kind, rng.randrange(10 ** 9), prof, rng.choice([5, 7, 9])))
+            items.append((kind, rng.randrange(10 ** 9), prof, rng.choice([5, 7, 9] if kind in ("sm", "run") else [8, 12, 16])))
     return items
 
 
